@@ -310,19 +310,13 @@ func (a Array) Without(value Value) Set {
 		if i := t.at - a.offset; 0 <= i && i < len(a.values) {
 			v := a.values[i]
 			if v != nil && v.Equal(t.item) {
+				// Removing an end may expose holes: trim them, as
+				// NewOffsetArray and Where do.
 				if t.at == a.offset {
-					return Array{
-						values: a.values[1:],
-						offset: a.offset + 1,
-						count:  a.count - 1,
-					}
+					return NewOffsetArray(a.offset+1, a.values[1:]...)
 				}
 				if t.at == a.offset+len(a.values)-1 {
-					return Array{
-						values: a.values[:len(a.values)-1],
-						offset: a.offset,
-						count:  a.count - 1,
-					}
+					return NewOffsetArray(a.offset, a.values[:len(a.values)-1]...)
 				}
 				result := a.clone()
 				result.values[i] = nil
